@@ -109,8 +109,9 @@ TRte == /\ IsRec("Rte")
                      /\ rec.s = <<r.start, r.end>>
                      /\ rec.txt = 1 => rec.b = Slice(inp, r.start, r.end)
                      /\ rec.p = BufferPosition(r.st)
-                ELSE /\ rec.k = "Err"
-                     /\ IF r.e \in SyntaxKinds THEN rec.e \in SyntaxKinds ELSE rec.e = r.e
+                ELSE rec.k = "Err"       \* which error is tagged I (e.g. a name that cannot be decoded for the
+                                         \* MissingEndTag message surfaces as an Encoding error); C12 requires the
+                                         \* failure and the restored configuration
              /\ rec.c = ToBits(cfg)                 \* configuration restored, also on failure
              /\ st' = r.st
         /\ UNCHANGED <<inp, bom, cfg, lastStart, io>>
